@@ -78,7 +78,7 @@ def parse_trace(path):
     return evs
 
 
-def run_scenarios(binary, scenarios, tag, timeout=120, prefix=None, env_extra=None, per_scn_timeout=None):
+def run_scenarios(binary, scenarios, tag, timeout=120, prefix=None, env_extra=None, per_scn_timeout=None, before_round=None):
     """Run scenarios through `jbkdrive run`. Returns {scn id: {"events": [...], "status": ...}}.
     status: ok | crash:<rc> | timeout.  After a crash or timeout the remaining scenarios are
     run in a fresh process (the culprit is the scenario that began and did not end)."""
@@ -93,6 +93,8 @@ def run_scenarios(binary, scenarios, tag, timeout=120, prefix=None, env_extra=No
         env.update(env_extra)
     while todo:
         rnd += 1
+        if before_round is not None:
+            before_round()
         sf = os.path.join(WORK, "%s.scn.%d.ndjson" % (tag, rnd))
         tf = os.path.join(WORK, "%s.trace.%d.ndjson" % (tag, rnd))
         with open(sf, "w") as f:
